@@ -358,26 +358,30 @@ def f24History (byName : Bool) : FS :=
 
 open Wz.Model.RefFS in
 /-- `dirfd_follows_rename` (repaired variant, `byName = false`): a rename changes neither the descriptor
-table nor the open descriptions, and a path relative to a directory descriptor starts from the directory the
-descriptor denotes — whatever that directory is called now. -/
+table nor the open descriptions, so every descriptor denotes the same directory (inode) as before; and a path
+relative to a directory descriptor starts from that directory — whatever it is called now — unless the
+directory itself has been removed (then nothing can be found in it). -/
 theorem dirfd_follows_rename (fs : FS) (h : fs.byName = false) (f1 f2 : Int) (c1 c2 : List String)
     (fd : Int) (comps : List String) :
-    (fs.rename f1 c1 f2 c2).1.atPath fd comps = fs.atPath fd comps ∧
-    (∀ id d, fs.desc fd = .ok (id, d) → d.isDir = true → fs.atPath fd comps = .ok (d.ino, comps)) := by
-  constructor
-  · have key : (fs.rename f1 c1 f2 c2).1.ctx = fs.ctx ∧ (fs.rename f1 c1 f2 c2).1.descs = fs.descs ∧
-        (fs.rename f1 c1 f2 c2).1.byName = fs.byName := by
-      unfold FS.rename
-      repeat' split
-      all_goals (try exact ⟨rfl, rfl, rfl⟩)
-      all_goals (simp only [FS.setNode]; repeat' split)
-      all_goals exact ⟨rfl, rfl, rfl⟩
-    unfold FS.atPath FS.desc
-    rw [key.1, key.2.1, key.2.2]
-  · intro id d hd hdir
-    unfold FS.atPath
-    rw [hd]
-    simp [hdir, h]
+    (fs.rename f1 c1 f2 c2).1.desc fd = fs.desc fd ∧
+    (∀ id d, fs.desc fd = .ok (id, d) → d.isDir = true →
+      (((fs.rename f1 c1 f2 c2).1.node d.ino).map (·.dead)).getD false = false →
+      (fs.rename f1 c1 f2 c2).1.atPath fd comps = .ok (d.ino, comps)) := by
+  have key : (fs.rename f1 c1 f2 c2).1.ctx = fs.ctx ∧ (fs.rename f1 c1 f2 c2).1.descs = fs.descs ∧
+      (fs.rename f1 c1 f2 c2).1.byName = fs.byName := by
+    unfold FS.rename
+    repeat' split
+    all_goals (try exact ⟨rfl, rfl, rfl⟩)
+    all_goals (simp only [FS.setNode]; repeat' split)
+    all_goals exact ⟨rfl, rfl, rfl⟩
+  have hdesc : (fs.rename f1 c1 f2 c2).1.desc fd = fs.desc fd := by
+    unfold FS.desc
+    rw [key.1, key.2.1]
+  refine ⟨hdesc, ?_⟩
+  intro id d hd hdir hdead
+  unfold FS.atPath
+  rw [hdesc, hd]
+  simp [hdir, key.2.2, h, hdead]
 
 open Wz.Model.RefFS in
 /-- F24 (witness, pinned tree `byName = true`): after `mkdir a; open a → 4; rename a b`, creating `x`
